@@ -530,10 +530,14 @@ fn read_or_fallback<S: StateRead>(
     mut key: Key,
     num_values: usize,
 ) -> Result<Vec<Vec<Word>>, S::Error> {
-    let mut out = Vec::with_capacity(num_values);
+    let mut out = Vec::new();
     match post.state.get(&contract_addr) {
         Some(contract_state) => {
-            for _ in 0..num_values {
+            // The number of values is chosen by the program being checked. Reading more
+            // values than could ever be written to the VM's memory (an [index, len]
+            // pair per value) can only fail, so there's no need to read beyond that.
+            let max_values = Memory::SIZE_LIMIT / 2 + 1;
+            for _ in 0..num_values.min(max_values) {
                 match contract_state.get(&key) {
                     Some(value) => out.push(value.clone()),
                     None => {
